@@ -4,13 +4,14 @@
    (Model/Threads.v) of the thread programs [progs] (ANY number of threads, ANY calls) under the
    schedule [sched] (ANY list of thread ids); [f key] is the value the call returns when run alone.
 
-   Full statement, for the source's configuration [src_config] (regenerated from /repo's AST):
-     forall f conv, conv_correct f conv -> forall ops progs sched c r,
-       In (c, r) (all_outputs (run src_config f conv sched (init ops progs))) -> r = Ok (f (ckey c)).
-   It is FALSE of the code as it stands (finding D13: COO.transpose / COO.reshape iterate the cache
-   deque itself while other threads append to it), see cache_race_refuted and cache_source_verdict.
-   [cache_source_verdict] is stated so that it always matches what the source says now: the race while
-   a lookup loop iterates the deque object, full schedule independence once both iterate a snapshot. *)
+   The cache protocol's variant (does the lookup loop of COO.transpose / COO.reshape iterate the
+   deque object or a snapshot of it?), the deque bound and the shape of tocsc's last stage are NOT
+   fixed here: [src_config] is regenerated from /repo's AST on every run (Gen/S_threads.v).
+   [cache_schedule_independent] is the FULL statement for the source as it is now (since the repair
+   of finding D13 both loops iterate tuple(deque)); its proof needs [all_snapshot src_config = true]
+   by computation, so a revert to direct iteration flips the generated parameter and breaks it.
+   [cache_race_refuted] / [cache_only_failure_is_deque_race] are statements about the protocol
+   VARIANT that iterates the deque itself (what a revert would re-introduce). *)
 From Coq Require Import ZArith List Bool.
 From Verif Require Import Py S_threads Threads ThreadsP.
 Import ListNotations.
@@ -27,7 +28,17 @@ Theorem memo_schedule_independent :
 Proof. exact memo_sound. Qed.
 Print Assumptions memo_schedule_independent.
 
-(* the deque protocol whose lookup loops iterate a snapshot (one C call): the candidate fix *)
+(* THE PROPERTY for the code as it is now: under every schedule of any number of threads running
+   any read-only calls (cached transpose/reshape, tocsr/tocsc, kernel factories, everything else),
+   every call returns the value it returns when run alone and none fails *)
+Theorem cache_schedule_independent :
+  forall f conv, conv_correct f conv ->
+  forall ops progs sched c r,
+    In (c, r) (all_outputs (run src_config f conv sched (init ops progs))) -> r = Ok (f (ckey c)).
+Proof. exact source_schedule_independent. Qed.
+Print Assumptions cache_schedule_independent.
+
+(* the same for ANY configuration whose lookup loops iterate a snapshot (one C call) *)
 Theorem cache_snapshot_schedule_independent :
   forall cfg f conv, conv_correct f conv ->
   forall sched ops progs c r,
@@ -36,7 +47,7 @@ Theorem cache_snapshot_schedule_independent :
 Proof. exact snapshot_sound. Qed.
 Print Assumptions cache_snapshot_schedule_independent.
 
-(* the deque protocol as the code has it: the ONLY deviation any schedule can produce is a
+(* any variant, including direct iteration: the ONLY deviation any schedule can produce is a
    RuntimeError raised by a transpose/reshape lookup on a cache-enabled array — never a wrong value,
    never another error *)
 Theorem cache_only_failure_is_deque_race :
@@ -47,15 +58,6 @@ Theorem cache_only_failure_is_deque_race :
     (r = Raise RuntimeError /\ exists s n k, c = CCache s n k /\ snap cfg s = false).
 Proof. exact outputs_sound. Qed.
 Print Assumptions cache_only_failure_is_deque_race.
-
-(* the partial statement under the named domain clause D13 (no lookup saw its deque mutated) *)
-Theorem cache_schedule_independent_partial :
-  forall cfg f conv, conv_correct f conv ->
-  forall sched ops progs c r,
-    d13_clause (run cfg f conv sched (init ops progs)) = true ->
-    In (c, r) (all_outputs (run cfg f conv sched (init ops progs))) -> r = Ok (f (ckey c)).
-Proof. exact partial_sound. Qed.
-Print Assumptions cache_schedule_independent_partial.
 
 (* the refutation: whenever a lookup loop iterates the deque itself, two threads and one schedule
    make a call fail although it succeeds when run alone *)
